@@ -67,6 +67,39 @@ CLAIMS["C09"] = dict(
         "velocity vector is unconstrained (the code returns atan2 of signed zeros).",
    technique="Lean 4 proof (structural, parametric in atan2deg) + model/implementation correspondence + exact-arithmetic oracle", ref="5.9")
 
+CLAIMS["C12"] = dict(
+   text="Lean 4 theorems (Props/C12.lean) with an explicit clock: every accepted frame stamps its row with the current time on both update paths "
+        "and at creation; the sweep counter advances with accepted frames only, never exceeds 11, and a sweep is due within 12 accepted frames from "
+        "every reachable value; a sweep keeps exactly the rows heard fewer than delete_after whole seconds ago; a recently heard aircraft survives "
+        "every step; a silent one is removed by the sweep; a frame for an absent address creates Plane::from_downlink of a default row; rows enter "
+        "only as the row of an accepted frame. Correspondence: schedules of reader runs and silences around the limit.",
+   note="trusted: Lean kernel and standard axioms; harness. Modelled, not verified: chrono::Utc::now() (explicit clock in the model; the harness shifts "
+        "the public time-stamp fields and compensates real elapsed time), HashMap::retain.",
+   technique="Lean 4 proof (one-step lemmas over every state, counter automaton by decide) + model/implementation correspondence over schedules", ref="5.12")
+CLAIMS["C13"] = dict(
+   text="Lean 4 theorems (Props/C13.lean): a line that is not accepted leaves the whole reader state unchanged; the state after a segment equals the "
+        "state after the subsequence of its accepted lines (induction over the stream); junk inserted anywhere changes nothing; the byte-wise line "
+        "splitter hands over every piece between newlines whatever bytes it contains. The correspondence check feeds the real reader thread "
+        "junk-laden files (NUL, invalid UTF-8, >64 KiB lines, truncated frames) and compares the table with the clean file's.",
+   note="trusted: Lean kernel and standard axioms; harness. Modelled, not verified - and this is where the property lives: BufRead::split and "
+        "String::from_utf8_lossy, i.e. that std hands every line to the loop; validated by running the real reader on hostile byte streams.",
+   technique="Lean 4 proof (fold over the stream) + differential run of the real reader on clean vs junk-laden input", ref="5.13")
+CLAIMS["C16"] = dict(
+   text="Lean 4 theorems (Props/C16.lean): a frame whose DF is not in the -f list leaves the reader state unchanged; with -c the counter of each DF "
+        "after a segment equals the number of accepted lines (frame, non-zero address, passed the filter) of that DF, without -c there are none; the "
+        "counter map lists each DF once in ascending order (BTreeMap as sorted association list with a proved invariant). The check reads the real "
+        "counter line printed by the display and compares it with the count of generated accepted frames.",
+   note="trusted: Lean kernel and standard axioms; harness (stdout of the real display_planes captured). Modelled, not verified: BTreeMap, println!.",
+   technique="Lean 4 proof (induction over the stream, counting lemma) + comparison with the real counter line", ref="5.16")
+CLAIMS["C17"] = dict(
+   text="Lean 4 theorems (Props/C17.lean) over the match arms regenerated from the source on every run: the nested prefix match equals a first-match "
+        "lookup in a list of blocks; that list is exactly the allocation table of Spec/Annex10.lean; no two blocks overlap and all lie in the 24-bit "
+        "space (kernel-evaluated); hence an address inside a block shows its code, outside every block '??' - for all addresses, no enumeration. "
+        "The row's reg is set at creation and preserved by every update. Correspondence: all 2^24 addresses through Plane::from_downlink.",
+   note="trusted: Lean kernel and standard axioms; the country extractor; harness; Spec/Annex10.lean (the edition the repository cites; Malta's "
+        "block width could not be confirmed offline).",
+   technique="Lean 4 proof over source-extracted tables (translator) + exhaustive 2^24 correspondence sweep", ref="5.17")
+
 NOT_YET = "check not built yet in this revision; listed so that the manifest stays truthful while the framework grows"
 
 def main():
